@@ -24,6 +24,9 @@ import (
 
 const (
 	_TRANSFORM_SKIP_MASK = 0xFF
+
+	// Extra room (beyond the block size) that the decompressor always provides
+	_SEQ_MAX_INTERMEDIATE_EXPANSION = 512
 )
 
 // ByteTransformSequence encapsulates a sequence of transforms or functions in a function
@@ -87,6 +90,12 @@ func (this *ByteTransformSequence) Forward(src, dst []byte) (uint, uint, error) 
 	for i := range this.transforms {
 		var err error
 		savedLength := length
+
+		if length > blockSize+_SEQ_MAX_INTERMEDIATE_EXPANSION {
+			// The decoder only guarantees that much room for the intermediate results
+			// of the inverse sequence: do not stack another transform on an expanded block
+			continue
+		}
 
 		if len(out) < requiredSize {
 			if cap(out) >= requiredSize {
